@@ -324,6 +324,67 @@ def eval_case(case: dict) -> dict:
     return res
 
 
+def eval_serial(arg) -> dict:
+    """Parse-and-forget series: documents that share their inner namespace and declaration
+    names but differ in the outer namespace are parsed one after the other, each parser and
+    result released (and collected) before the next.  Whatever a parse remembers by object
+    identity or by local name shows up in a later result."""
+    import copy  # pylint: disable=import-outside-toplevel
+    import gc    # pylint: disable=import-outside-toplevel
+    from ..modelgen import ModelGen, fresh  # pylint: disable=import-outside-toplevel
+    from .. import model as M               # pylint: disable=import-outside-toplevel
+    seed, stream = arg
+    common.import_dznpy()
+    from dznpy.json_ast import DznJsonAst   # pylint: disable=import-outside-toplevel
+    rng = random.Random(f'{PROP}:serial:{seed}:{stream}')
+    out = {'violations': [], 'counts': {}}
+    cnt = out['counts']
+    base = None
+    for _ in range(50):
+        opts = make_opts(rng)
+        opts.max_ns_depth = max(2, opts.max_ns_depth)
+        opts.noise = 0.0
+        gen = ModelGen(rng, opts).generate()
+        tops = [e for e in gen.model.elements if isinstance(e, M.Namespace) and e.elements]
+        if tops:
+            base = gen
+            break
+    if base is None:
+        out.update(digest=f'serial-{seed}-{stream}', nontrivial=False)
+        return out
+    variants = []
+    taken = set()
+    for _v in range(6):
+        model = copy.deepcopy(base.model)
+        for e in model.elements:
+            if isinstance(e, M.Namespace):
+                e.name = [fresh(rng, taken, 'camel')] + e.name[1:]
+        variants.append((json.dumps(M.to_json(model)), M.expectations(model)))
+    history = {'kind': 'serial', 'documents': [json.loads(v[0]) for v in variants]}
+    for round_no in range(60):
+        idx = rng.randrange(len(variants))
+        text, want = variants[idx]
+        with common.quiet():
+            parser = DznJsonAst(text if round_no % 2 else text.encode('utf-8'))
+            fc = parser.process()
+        got = M.canon_filecontents(fc)
+        cnt['serial_parses_compared'] = cnt.get('serial_parses_compared', 0) + 1
+        diff = common.first_diff(want, got)
+        del parser, fc
+        gc.collect()
+        if diff:
+            out['violations'].append({
+                'mechanism': 'process-result-differs:after-released-parses:' +
+                             common.strip_indices(diff['path']),
+                'detail': {'round': round_no, 'diff': diff}, 'case': history,
+                'klass': 'process-result-differs:after-released-parses'})
+            break
+    out['digest'] = common.digest(history)
+    out['nontrivial'] = True
+    out['sample'] = {'kind': 'serial', 'documents': len(variants), 'rounds': 60}
+    return out
+
+
 def _worker(arg):
     seed, stream = arg
     return eval_case(build_case(seed, stream))
@@ -336,6 +397,9 @@ def main(tier: str) -> int:
                 'load_file_calls', 'child_references', 'no_document_refusals')
     for item, res in run.pmap(_worker, [(run.seed, i) for i in range(n)], chunksize=2):
         common.absorb(run, {'seed': item[0], 'stream': item[1]}, res)
+    run.require('serial_parses_compared')
+    for item, res in run.pmap(eval_serial, [(run.seed, i) for i in range(16 if tier == 'quick' else 200)]):
+        common.absorb(run, {'seed': item[0], 'stream': item[1], 'kind': 'serial'}, res)
     return run.finish(
         rule='histories of 3..20 operations (DznJsonAst(doc as str|bytes), DznJsonAst(), '
              'load_file, process) over 2..4 well-formed documents and 1..4 live instances; every '
